@@ -569,12 +569,13 @@ pub fn run(prop: &str, tier: &str, replay: Option<&str>) -> i32 {
         let space = cert_space(false, true);
         let ctx = stub_self_ctx(Alg::Ed25519, 1);
         let ictx = stub_issuer_ctx(Alg::EcP256, &DnSpec(vec![(DnTypeSpec::O, StrKind::Utf8, "I".into()), (DnTypeSpec::Cn, StrKind::Utf8, "issuer".into())]), &KeyIdSpec::Sha384, Alg::Ed25519, "pair");
-        let sec = Section::new("purity+repeat/cert", "every certificate state at levels k<=2 (thorough 3), self- and issuer-signed: returned parameters equal the input, the issuer certificate is unchanged, and generating the same state 4 times gives identical TBS").with_deadline(if thorough { 900 } else { 40 });
+        let vctx = via_csr_ctx(&zoo, KeyKind::Ed25519, Alg::Ed25519, &DnSpec::cn("purity issuer"), &KeyIdSpec::Sha256);
+        let sec = Section::new("purity+repeat/cert", "every certificate state at levels k<=2 (thorough 3), self-signed, issuer-signed and issued through a parsed CSR's params: returned parameters equal the input, the issuer certificate is unchanged, and generating the same state 4 times gives identical TBS").with_deadline(if thorough { 900 } else { 40 });
         run::levels(&sec, &space, if thorough { 3 } else { 2 }, &|st, _| {
             let mut out = Outcome::default();
             let mut first: Option<Vec<u8>> = None;
             for rep_i in 0..4 {
-                for c in [&ctx, &ictx] {
+                for c in [&ctx, &ictx, &vctx] {
                     if rep_i > 0 && !std::ptr::eq(c, &ctx) {
                         continue;
                     }
@@ -646,6 +647,154 @@ pub fn run(prop: &str, tier: &str, replay: Option<&str>) -> i32 {
                 }
             }
             out.findings.dedup_by(|a, b| a.sig() == b.sig());
+            out
+        });
+        rep.add(sec);
+    }
+    // (d2) edit-encode histories on ONE CertificateParams object: after every step (an in-place edit through the public
+    // API, a clone, or a round through Certificate::params()) the object is encoded through &self (certification
+    // request) and through a clone (self-signed certificate); both must equal the encodings of parameters built
+    // afresh from the model state. Whatever an earlier encoding or edit leaves behind in the object must not show.
+    {
+        #[derive(Clone, Copy, Debug, PartialEq)]
+        enum E {
+            ExtPush,
+            Ext0Critical(bool),
+            ExtLastCritical(bool),
+            DnPush(u8, u8),
+            DnRemove(u8),
+            InsertEku(u8),
+            SanPush,
+            KuPush(u8),
+            ViaCertificate,
+            Clone,
+            Serial(u8),
+        }
+        let ops: Vec<E> = vec![E::ExtPush, E::Ext0Critical(true), E::Ext0Critical(false), E::ExtLastCritical(true), E::DnPush(0, 0), E::DnPush(0, 1), E::DnPush(1, 0), E::DnRemove(0), E::InsertEku(0), E::InsertEku(1), E::SanPush, E::KuPush(0), E::KuPush(5), E::ViaCertificate, E::Clone, E::Serial(7)];
+        let dn_types = [DnTypeSpec::Cn, DnTypeSpec::O];
+        let dn_vals = ["x", "y"];
+        let ekus = [EkuSpec::ServerAuth, EkuSpec::ClientAuth];
+        let ctx = stub_self_ctx(Alg::Ed25519, 1);
+        let kp = match &ctx.subject {
+            SubjectSrc::Pair(k) => k,
+            _ => unreachable!(),
+        };
+        let apply = |p: &mut rcgen::CertificateParams, m: &mut CertState, op: E| {
+            match op {
+                E::ExtPush => {
+                    let n = m.custom_exts.len() as u64;
+                    let spec = CustomExtSpec { oid: vec![1, 3, 6, 1, 4, 1, 55555, 3, n], critical: false, content: vec![0x02, 0x01, n as u8], acme: false };
+                    p.custom_extensions.push(rcgen::CustomExtension::from_oid_content(&spec.oid, spec.content.clone()));
+                    m.custom_exts.push(spec);
+                }
+                E::Ext0Critical(b) => {
+                    if let (Some(e), Some(s)) = (p.custom_extensions.first_mut(), m.custom_exts.first_mut()) {
+                        e.set_criticality(b);
+                        s.critical = b;
+                    }
+                }
+                E::ExtLastCritical(b) => {
+                    if let (Some(e), Some(s)) = (p.custom_extensions.last_mut(), m.custom_exts.last_mut()) {
+                        e.set_criticality(b);
+                        s.critical = b;
+                    }
+                }
+                E::DnPush(t, v) => {
+                    p.distinguished_name.push(to_dn_type(&dn_types[t as usize]), to_dn_value(StrKind::Utf8, dn_vals[v as usize]).unwrap());
+                    if let Some(e) = m.dn.0.iter_mut().find(|e| e.0 == dn_types[t as usize]) {
+                        e.1 = StrKind::Utf8;
+                        e.2 = dn_vals[v as usize].to_string();
+                    } else {
+                        m.dn.0.push((dn_types[t as usize].clone(), StrKind::Utf8, dn_vals[v as usize].to_string()));
+                    }
+                }
+                E::DnRemove(t) => {
+                    p.distinguished_name.remove(to_dn_type(&dn_types[t as usize]));
+                    m.dn.0.retain(|e| e.0 != dn_types[t as usize]);
+                }
+                E::InsertEku(i) => {
+                    p.insert_extended_key_usage(to_eku(&ekus[i as usize]));
+                    if !m.ekus.contains(&ekus[i as usize]) {
+                        m.ekus.push(ekus[i as usize].clone());
+                    }
+                }
+                E::SanPush => {
+                    let n = m.sans.len();
+                    let s = SanSpec::Dns(format!("h{}.example", n));
+                    p.subject_alt_names.push(to_san(&s).unwrap());
+                    m.sans.push(s);
+                }
+                E::KuPush(b) => {
+                    p.key_usages.push(KU_ALL[b as usize]);
+                    m.key_usages.push(b);
+                }
+                E::ViaCertificate => {
+                    if let Ok(Ok(c)) = guarded(|| p.clone().self_signed(kp)) {
+                        *p = c.params().clone();
+                    }
+                }
+                E::Clone => *p = p.clone(),
+                E::Serial(b) => {
+                    p.serial_number = Some(rcgen::SerialNumber::from_slice(&[b]));
+                    m.serial = Some(vec![b]);
+                }
+            }
+        };
+        let observe = |p: &rcgen::CertificateParams, m: &CertState, hist: &[E], out: &mut Outcome| {
+            let fresh = match to_params(m) {
+                Ok(f) => f,
+                Err(e) => {
+                    out.unexpected_err = Some(e);
+                    return;
+                }
+            };
+            let cri = |q: &rcgen::CertificateParams| guarded(|| q.serialize_request(kp)).ok().and_then(|r| r.ok()).and_then(|c| refmodel::x509::decode_csr(c.der()).value.map(|a| a.cri_raw));
+            let tbs = |q: &rcgen::CertificateParams| guarded(|| q.clone().self_signed(kp)).ok().and_then(|r| r.ok()).and_then(|c| refmodel::x509::decode_cert(c.der()).value.map(|a| a.tbs_raw));
+            // a CSR cannot carry a serial number: both refuse, or both agree
+            let (a, b) = (cri(p), cri(&fresh));
+            if a != b && out.findings.len() < 3 {
+                out.findings.push(Finding::new("HISTORY-DEPENDENT-OUTPUT", "certification request", format!("after {:?} the request generated from the edited object differs from the one generated from parameters built afresh with the same field values", hist)));
+            }
+            let (a, b) = (tbs(p), tbs(&fresh));
+            if a != b && out.findings.len() < 3 {
+                out.findings.push(Finding::new("HISTORY-DEPENDENT-OUTPUT", "certificate", format!("after {:?} the certificate generated from the edited object differs from the one generated from parameters built afresh with the same field values", hist)));
+            }
+            if *p != fresh && out.findings.len() < 3 {
+                out.findings.push(Finding::new("HISTORY-DEPENDENT-OUTPUT", "CertificateParams ==", format!("after {:?} the edited object does not equal parameters built afresh with the same field values", hist)));
+            }
+            out.transitions += 4;
+        };
+        let depth = if thorough { 5 } else { 4 };
+        let sec = Section::new(&format!("edit-encode-histories/depth<={}", depth), &format!("every one of the {}^k histories (k <= {}) of in-place edits of one CertificateParams (custom extension push / set_criticality, name push / remove, insert_extended_key_usage, alternative name, key usage, serial), clones and rounds through Certificate::params(), with the object ENCODED after every step (request through &self, certificate through a clone): encodings and == agree with parameters built afresh from the model state", ops.len(), depth)).with_deadline(if thorough { 900 } else { 40 });
+        let firsts: Vec<E> = ops.clone();
+        run::sweep_cases(&sec, &firsts, &|e| format!("{:?} ...", e), &|first| {
+            let mut out = Outcome::default();
+            fn rec(ops: &[E], p: &rcgen::CertificateParams, m: &CertState, hist: &mut Vec<E>, left: usize, apply: &dyn Fn(&mut rcgen::CertificateParams, &mut CertState, E), observe: &dyn Fn(&rcgen::CertificateParams, &CertState, &[E], &mut Outcome), out: &mut Outcome, n: &mut u64) {
+                for op in ops {
+                    let mut p2 = p.clone();
+                    let mut m2 = m.clone();
+                    apply(&mut p2, &mut m2, *op);
+                    hist.push(*op);
+                    *n += 1;
+                    observe(&p2, &m2, hist, out);
+                    if left > 1 {
+                        rec(ops, &p2, &m2, hist, left - 1, apply, observe, out, n);
+                    }
+                    hist.pop();
+                }
+            }
+            let mut m = CertState::default();
+            let mut p = to_params(&m).unwrap();
+            observe(&p, &m, &[], &mut out);
+            apply(&mut p, &mut m, *first);
+            let mut hist = vec![*first];
+            observe(&p, &m, &hist, &mut out);
+            let mut n = 1u64;
+            if depth > 1 {
+                rec(&ops, &p, &m, &mut hist, depth - 1, &apply, &observe, &mut out, &mut n);
+            }
+            sec.states.fetch_add(n, std::sync::atomic::Ordering::Relaxed);
+            out.digest = fnv(format!("{:?}", first).as_bytes());
             out
         });
         rep.add(sec);
